@@ -7,16 +7,20 @@ from props.walklib import hx, unhx
 def fault_not_stack(rng, vocab, dirs):
     """1-2 negations that are never exhaustive and name entries of the tree (so that faults are matched by them)"""
     layers = []
-    for _ in range(rng.choice([1, 1, 2])):
+    for _ in range(rng.choice([1, 1, 2, 3])):
         names = rng.sample(vocab, min(len(vocab), rng.randint(2, 4)))
-        shape = rng.choice(["any", "alt", "single"])
-        if shape == "any":
+        shape = rng.choice(["any", "alt", "single", "filter", "observer"])
+        if shape == "filter":
+            layers.append("f:" + ",".join("%s=F" % hx(v) for v in names))      # file verdicts only: nothing is pruned
+        elif shape == "observer":
+            layers.append("f:")
+        elif shape == "any":
             layers.append(rng.choice(["n:", "nc:"]) + "+".join(hx("**/" + walkgen.esc(v)) for v in names))
         elif shape == "alt":
             layers.append("n:" + hx("**/{" + ",".join(walkgen.esc(v) for v in names) + "}"))
         else:
             layers.append("n:" + hx("**/" + walkgen.esc(names[0])))
-    return ";".join(layers), "n" * len(layers), []
+    return ";".join(layers), "".join("f" if l.startswith("f:") else "n" for l in layers), []
 
 
 def run(rep, tier, seed, replay):
@@ -96,11 +100,13 @@ def run(rep, tier, seed, replay):
             continue
         rep.stats["ok-entries = fault-free walk of the readable part"] += 1
         # every unreadable directory whose entry is yielded (and not discarded as a tree, nor at the maximum depth) is followed by one error item naming it
-        only_never_nots = c.stack != "-" and all(l.startswith(("n:", "nc:")) for l in c.stack.split(";")) and (c.mn, c.mx) == ("-", "-") and c.mode == "p"
-        if only_never_nots:
-            # "negations pass error items through": when every pattern of every negation is never exhaustive nothing is
-            # pruned, so every fault that a walk without the negations reports is still reported, once, in place
-            pats = sorted({x for l in c.stack.split(";") for x in l.split(":", 1)[1].split("+")})
+        nothing_pruned = c.stack != "-" and (c.mn, c.mx) == ("-", "-") and c.mode == "p" and all(
+            l.startswith(("n:", "nc:")) or (l.startswith("f:") and "=T" not in l) for l in c.stack.split(";"))
+        if nothing_pruned:
+            # "negations and entry filters pass error items through": when every pattern of every negation is never
+            # exhaustive and no filter gives a tree verdict nothing is pruned, so every fault that a walk without the
+            # stack reports is still reported, once, in place
+            pats = sorted({x for l in c.stack.split(";") if not l.startswith("f:") for x in l.split(":", 1)[1].split("+")})
             verdicts = [lib.parse_impl_build(a).get("exh") for a in common.harness().ask(["B " + x for x in pats])]
             if all(v == "never" for v in verdicts):
                 bare = c.clone(stack="-")
@@ -109,10 +115,10 @@ def run(rep, tier, seed, replay):
                     berrs = walklib.err_items(bare.f.get("items"))
                     if sorted(map(str, berrs)) != sorted(map(str, errs)):
                         lost = [e for e in berrs if e not in errs]
-                        rep.violation("oracle", ("a negation that is never exhaustive swallows the error item of %r" % (lost[0][0],)) if lost else "a negation changes the error items of the walk",
+                        rep.violation("oracle", ("a stack that prunes nothing (never-exhaustive negations, file verdicts, observers) swallows the error item of %r" % (lost[0][0],)) if lost else "a stack that prunes nothing changes the error items of the walk",
                                       c.describe(), impl=c.impl[:400])
                     else:
-                        rep.stats["never-exhaustive negations pass every error item through"] += 1
+                        rep.stats["stacks that prune nothing pass every error item through"] += 1
         if c.stack == "-" and (c.mn, c.mx) == ("-", "-") and c.mode == "p":
             ulist = [p for p, k, _d in nodes if k == "u"]
             base_p = unhx(c.f.get("base", "-"))
